@@ -15,6 +15,9 @@ _loader.exec_module(ck)
 
 SCENARIOS = {
     "C17": ["blocking", "timeout", "contended", "in_runtime", "deadletters", "blocking", "timeout", "contended"],
+    "C01": ["async_mt"],
+    "C02": ["async_mt"],
+    "C06": ["async_mt"],
     "C11": ["ids"],
     "C13": ["deadletters", "blocking"],
 }
@@ -88,7 +91,9 @@ def run_batch(prop, scenarios, n_runs, seed):
         sc = scenarios[i % len(scenarios)]
         wseed = (seed * 1000003 + i * 7919) % (1 << 31)
         mseed = (seed + i * 101) % (1 << 31)
-        jobs.append((sc, wseed, mseed, RATES[i % len(RATES)]))
+        # the id-allocation window is a handful of instructions: pre-empt much more often there
+        rates = ["0.1", "0.3", "0.5"] if sc == "ids" else RATES
+        jobs.append((sc, wseed, mseed, rates[i % len(rates)]))
     results = []
     with ThreadPoolExecutor(max_workers=ck.NPROC) as ex:
         for job, (code, out) in zip(jobs, ex.map(lambda j: one_run(*j), jobs)):
@@ -133,9 +138,13 @@ def m_part(prop, tier, seed):
     """Thread-level clauses of an S-checked property (C11, C13): a few Miri executions. Returns
     (violations [(prop, sig, text, replay)], stats)."""
     n = 12 if tier == "quick" else 240
-    res = run_batch(prop, SCENARIOS[prop], n, seed)
+    if prop in ("C01", "C02", "C06"):
+        n = 8 if tier == "quick" else 160
+    # different properties that share a scenario explore different executions of it
+    res = run_batch(prop, SCENARIOS[prop], n, seed + {"C02": 7, "C06": 13}.get(prop, 0))
     viol, stats = summarize(prop, res)
-    viol = [v for v in viol if v[0] in (prop, "C07") or v[1] in ("hang", "undefined-behaviour")]
+    own = {"C01": ("C01", "C03", "C04", "C05", "C07"), "C02": ("C02",), "C06": ("C06",)}.get(prop, (prop, "C07"))
+    viol = [v for v in viol if v[0] in own or v[1] in ("hang", "undefined-behaviour")]
     return viol, stats
 
 def run(prop, tier, seed):
